@@ -72,6 +72,22 @@ func c03Disturbers() []disturber {
 			wl.Handler.Ops = []HOp{{K: "waitctx"}, {K: "return", Code: codes.Aborted, Msg: "never read"}}
 			return wl
 		}},
+		{name: "caller-never-reads-small", stuck: true, wl: func() Workload {
+			// several small unread responses: under revision zero they park the client's receive
+			// loop in the hand-off to this stream until the RPC is cancelled - after which
+			// everything else must run again
+			wl := StdWorkload("d", 9, "ServerStream", []int{3}, nil)
+			wl.Call.Ops = []COp{{K: "new"}, {K: "send", Size: 3}, {K: "closesend"}, {K: "waitdone"}, {K: "recvall"}}
+			wl.Handler.Ops = []HOp{{K: "recv"}, {K: "send", Size: 3}, {K: "send", Size: 3}, {K: "send", Size: 3}, {K: "send", Size: 3}, {K: "return"}}
+			wl.Handler.KeepGoing = true
+			return wl
+		}},
+		{name: "handler-never-reads-small", stuck: true, wl: func() Workload {
+			wl := StdWorkload("d", 9, "ClientStream", nil, nil)
+			wl.Call.Ops = []COp{{K: "new"}, {K: "send", Size: 3}, {K: "send", Size: 3}, {K: "send", Size: 3}, {K: "send", Size: 3}, {K: "recvall"}}
+			wl.Handler.Ops = []HOp{{K: "waitctx"}, {K: "return", Code: codes.Aborted, Msg: "never read"}}
+			return wl
+		}},
 		{name: "bin-metadata", wl: func() Workload {
 			wl := StdWorkload("d", 9, "Unary", []int{3}, []int{3})
 			wl.Call.MD = metadata.MD{"k-bin": {"\x00\xff\x80"}}
@@ -149,14 +165,15 @@ func c03Scenarios(tier string) []*Scenario {
 						if !d.shutdown {
 							bth = w.StartCallers(t, by)
 						}
+						if d.stuck {
+							// the disturber never ends by itself: it is cancelled as a last resort,
+							// i.e. when nothing else can run (under revision zero the bystanders may
+							// legitimately be held up until then); earlier cancels are deviations
+							w.StartFault(t, "cancel:d")
+						}
 						w.Join(bth...)
 						w.Point("env:check-up")
 						w.Log(Event{Actor: "env", Op: "tunnel-up", Detail: fmt.Sprint(!chanDone(t))})
-						if d.stuck {
-							if c := w.cancelOf("d"); c != nil {
-								c()
-							}
-						}
 						w.Join(dth...)
 						t.Close()
 					},
@@ -197,7 +214,7 @@ func c03Scenarios(tier string) []*Scenario {
 
 func init() {
 	register(&PropDef{ID: "C03", Level: "model_checking",
-		Rule:      "bystander sets {U}, {B 2x16385 each way}, {CS 70000}, {all three} x disturbers {handler error, unknown / malformed / empty method, RPC after InitiateShutdown, cancelled mid-stream, deadline expiry, caller that never reads a 200 KB response, handler that never reads a 200 KB request, non-UTF-8 '-bin' request metadata / trailer} x {forward, reverse} x carrier capacity {1, unbounded} (+ revision zero for the disturbers that do not rely on flow control); every relative timing of all frames with <= 1 (quick) / 2 (thorough) deviations; oracle INDEP: each bystander ends exactly as it does alone (OK, all messages, byte-identical), the tunnel is still up when they finish, nothing hangs",
+		Rule:      "bystander sets {U}, {B 2x16385 each way}, {CS 70000}, {all three} x disturbers {handler error, unknown / malformed / empty method, RPC after InitiateShutdown, cancelled mid-stream, deadline expiry, caller that never reads a 200 KB response, handler that never reads a 200 KB request (flow control), caller / handler that never reads four small messages and is cancelled only when nothing else can run (also under revision zero, where the stall is by design but the cancellation must free the tunnel), non-UTF-8 '-bin' request metadata / trailer} x {forward, reverse} x carrier capacity {1, unbounded} (+ revision zero for the disturbers that do not rely on flow control); every relative timing of all frames with <= 1 (quick) / 2 (thorough) deviations; oracle INDEP: each bystander ends exactly as it does alone (OK, all messages, byte-identical), the tunnel is still up when they finish, nothing hangs",
 		Globals:   []func(*Scenario, *World, *Exec) []Violation{ProtoMonitor},
 		Scenarios: c03Scenarios})
 }
